@@ -560,6 +560,21 @@ func execVest(x *Exec, toks []string) string {
 				x.hit("C18", "withdraw-events-sum", "withdraw", fmt.Sprintf("events sum %s, paid %s", sum, got))
 			}
 		}
+		if strings.HasPrefix(out, "err") && o.ok {
+			// C06 (D38): the owner's withdraw-all is refused although, under the canonical spelling of the same
+			// address, the module holds matured pools of this owner with something to withdraw
+			if acc, err := sdk.AccAddressFromBech32(o.s); err == nil && acc.String() != o.s {
+				if avp, found := k.GetAccountVestingPools(x.ctx, acc.String()); found {
+					due := sdk.ZeroInt()
+					for _, p := range avp.VestingPools {
+						due = due.Add(vestkeeper.CalculateWithdrawable(x.ctx.BlockTime(), *p))
+					}
+					if due.IsPositive() {
+						x.hit("C06", "withdraw-refused-matured", "owner-spelling", fmt.Sprintf("withdraw-all of %s refused; the pools stored for %s have %s withdrawable", o.s, acc.String(), due))
+					}
+				}
+			}
+		}
 		return out
 	case "v.send":
 		o, t := parseAddrTok(toks[1]), parseAddrTok(toks[2])
